@@ -161,6 +161,28 @@ def listen_units(w):
     return [(f"{q}[{tag}]", q, ct, None, (f"proto_index(self._protocol) == {i}",), None) for i, tag in enumerate(["14", "15", "20", "21", "22"])]
 
 
+RELEASE_HARNESS = {
+    2: "def release2(M, m):\n    return get_protocol(f'{M}.{m}')\n",
+    3: "def release3(M, m, p):\n    return get_protocol(f'{M}.{m}.{p}')\n",
+    4: "def release4(M, m, p, b):\n    return get_protocol(f'{M}.{m}.{p}.{b}')\n",
+}
+
+
+def release_units(w):
+    """C05/select[k sections]: for every release version string M.m[.p[.b]] the selected protocol is select(M, m)."""
+    out = []
+    for k, src in RELEASE_HARNESS.items():
+        f = w.make_harness(f"release{k}", src, module="aiomysensors.model.protocol")
+        names = ["M", "m", "p", "b"][:k]
+        ct = Contract(f.qualname, params={n: TInt for n in names}, requires=[H("non-negative-parts", " and ".join(f"{n} >= 0" for n in names))],
+                      returns=TProto, ensures=[P(f"C05/select[{k} sections]", "proto_index(result) == select_idx(M, m)"),
+                                               CANARY(f"C05/canary-always-newest[{k}]", "proto_index(result) == 4")],
+                      raises={}, wf=False, check_wf=False)
+        ct.raises_only_id = "C05/release-versions-are-accepted"
+        out.append((f"get_protocol(release version, {k} sections)", f.qualname, ct, None, (), None))
+    return out
+
+
 def version_units(w):
     out = [(GETP, GETP, get_protocol_contract(), None, (), None), (SETTER, SETTER, setter_contract(), None, (), None)]
     q = "aiomysensors.gateway.Gateway.__init__"
